@@ -192,14 +192,16 @@ struct dumper
     {
         using vt = typename Char::value_type;
         using co = opts_of< Char >;
-        static_assert( !std::is_same< typename Char::configured_uuid, bluetoe::details::no_such_type >::value, "explicit UUIDs only" );
+        // auto-generated UUID: no characteristic_uuid option; char_index as computed by fixup_auto_uuid
+        constexpr bool auto_uuid = std::is_same< typename Char::configured_uuid, bluetoe::details::no_such_type >::value;
+        const std::size_t char_index = bluetoe::details::index_of< Char, typename Service::characteristics >::value + 1;
         const std::string se = opts_of< Service >::enc(), ce = co::enc();
         const bool req = bluetoe::details::characteristic_requires_encryption< Char, Service, typename Server::server_t >::value;
         // declaration: uuid bytes as stored in the real declaration attribute
         const std::vector< std::uint8_t > decl = content( idx );
         rows.push_back( head( se, ce, req ) + "D," + verif::to_hex( decl.data() + 3, decl.size() - 3 ) + ","
             + b01( vt::has_write_without_response ) + "," + b01( vt::has_only_write_without_response ) + ","
-            + b01( vt::has_notification ) + "," + b01( vt::has_indication ) );
+            + b01( vt::has_notification ) + "," + b01( vt::has_indication ) + "," + std::to_string( auto_uuid ? char_index : 0 ) );
         ++idx;
         rows.push_back( head( se, ce, req ) + value_info< typename Char::base_value_type, Char >::str() + ","
             + b01( vt::has_read_access ) + "," + b01( vt::has_write_access ) + "," + b01( co::no_read ) + "," + b01( co::no_write ) );
@@ -363,6 +365,8 @@ std::unique_ptr< server_if > make( const std::string& n )
     if ( n == "G7" ) return mk< G7 >();
     if ( n == "G8" ) return mk< G8 >();
     if ( n == "G9" ) return mk< G9 >();
+    if ( n == "A1" ) return mk< A1 >();
+    if ( n == "A2" ) return mk< A2 >();
     if ( n == "Q1" ) return mk< Q1 >();
     if ( n == "Q2" ) return mk< Q2 >();
 #define EE( a, b, c ) if ( n == "E" #a #b #c ) return mk< E< a, b, c > >();
